@@ -381,7 +381,7 @@ impl Campaign for C18c {
         "C18"
     }
     fn rule(&self) -> &'static str {
-        "seeded scenarios: a request with or without Expect: 100-continue (any letter case), body length {0, 5, 1024, 1025, 5000}, handler program {answer without reading, as_reader once, three times, partial read, read to EOF}, a client that withholds the body until it sees the interim response or sends it regardless, optionally pipelined after/before ordinary requests; non-trivial = the expectation is present; distinct = interleaving fingerprint"
+        "seeded scenarios: a request with or without Expect: 100-continue (any letter case), body length {0, 5, 1024, 1025, 5000}, handler program {answer without reading, as_reader once, three times, partial read, read to EOF}, a client that withholds the body until it sees the interim response or sends it regardless, optionally pipelined after/before ordinary requests, or followed by a second expecting request handled on another thread that answers while the first is still busy (the final response after an interim one must be the same request's); non-trivial = the expectation is present; distinct = interleaving fingerprint"
     }
     fn runs(&self, tier: Tier) -> u64 {
         match tier {
@@ -396,6 +396,7 @@ impl Campaign for C18c {
         let before = g.usize(0, 1);
         let after = g.usize(0, 1);
         let expects = index % 4 != 3;
+        let followed_by_expecting = expects && g.chance(1, 4);
         let len = *g.pick(&[0usize, 5, 1024, 1025, 5000]);
         let waits = expects && g.chance(1, 2);
         let mut steps = vec![];
@@ -443,13 +444,22 @@ impl Campaign for C18c {
                     // the body is never sent: nothing can follow on this connection
                     break;
                 }
+            } else if followed_by_expecting && r == before + 1 {
+                // a second expecting request without a body right behind the first: its handler asks
+                // for the body (interim response) and answers while the first one is still busy
+                let rq = Req::get(&id).header("Expect", "100-continue").header("Content-Length", "0");
+                steps.push(ClientStep::Send(B(rq.bytes())));
+                sc.programs.insert(id.clone(), Program { delay: 0, after: vec![], body: BodyPlan::Touch(1), delay2: 0, finish: Finish::Respond(RespSpec::simple(200, token_body(&id, 10))) });
+                if let Some(p) = sc.programs.get_mut(&format!("c0r{}", before)) {
+                    p.delay2 = 300 * MS;
+                }
             } else {
                 steps.push(ClientStep::Send(B(Req::get(&id).bytes())));
                 sc.programs.insert(id.clone(), Program::respond(200, token_body(&id, 10)));
             }
         }
         sc.conns.push(ConnScript { steps, coalesce: g.chance(1, 2), ..Default::default() });
-        sc.receivers = loop_receivers(1, if g.chance(1, 2) { Dispatch::Spawn } else { Dispatch::Inline });
+        sc.receivers = loop_receivers(1, if followed_by_expecting || g.chance(1, 2) { Dispatch::Spawn } else { Dispatch::Inline });
         sc.note = format!("C18 index {} expects={} len={} waits={} at {}", index, expects, len, waits, before);
         sc
     }
@@ -465,6 +475,7 @@ impl Campaign for C18c {
         }
         // split the wire into per-request groups: interim responses followed by one final
         let mut groups: Vec<(usize, Option<u16>, usize)> = vec![]; // (#100, final status, offset of first 100)
+        let mut final_bodies: Vec<Vec<u8>> = vec![];
         let mut n100 = 0;
         let mut first100 = 0;
         for m in &p.msgs {
@@ -478,6 +489,7 @@ impl Campaign for C18c {
                 n100 += 1;
             } else if !(100..200).contains(&m.status) || m.status == 101 {
                 groups.push((n100, Some(m.status), first100));
+                final_bodies.push(m.body.clone());
                 n100 = 0;
             }
         }
@@ -515,6 +527,18 @@ impl Campaign for C18c {
                     break;
                 }
             };
+            // the final response that closes this group must be the one for this request: an interim
+            // response of one request must never be followed by another request's final response
+            if let (Some(Finish::Respond(spec)), Some(fb)) = (prog.map(|p| &p.finish), final_bodies.get(k)) {
+                if g.1.is_some() && !r.is_head && *fb != spec.body.0 {
+                    v.violations.push(Violation {
+                        clause: "C18.before_final".into(),
+                        signature: "the final response following the interim response belongs to another request".into(),
+                        detail: format!("{}: response group #{} ({} interim, final {:?}) carries the body of another request ({:?}...): the interim and final responses of pipelined requests are mixed", sc.note, k, g.0, g.1, String::from_utf8_lossy(&fb[..fb.len().min(16)])),
+                    });
+                    break;
+                }
+            }
             if g.0 != want {
                 v.violations.push(Violation {
                     clause: "C18.exactly_once".into(),
